@@ -158,7 +158,17 @@ def _status_docs():
     long2 = long1.replace('dolor', 'color', 1)
     a = {"name": "pkg", "description": long1, "notes": "line one\nline two\nline three", "v": [1, 2]}
     b = {"name": "pkg", "description": long1, "notes": "line one\nline 2\nline three", "v": [1, 3], "extra": long2}
-    return {'json': (json.dumps(a), json.dumps(b), '.json'), 'yaml': (yaml.safe_dump(a), yaml.safe_dump(b), '.yml')}
+    # text containing the line separators other than "\n" (the status writer re-assembles the output line by line)
+    sep = "one\u2028two\x0cthree\x0bfour\x1cfive\x85six\u2029seven"
+    a2, b2 = dict(a, sep=sep, cr="x\ry"), dict(b, sep=sep, cr="x\rz")
+    xa = f'<r id="1"><t>{sep}</t><u>first\nsecond</u><v>{long1}</v></r>'
+    xb = f'<r id="2"><t>{sep}</t><u>first\nsecond!</u><v>{long2}</v></r>'
+    ca = f'h1,h2\n"{sep}","two\nlines"\n{long1},1\n'
+    cb = f'h1,h2\n"{sep}","two\nlines!"\n{long2},1\n'
+    return {'json': (json.dumps(a), json.dumps(b), '.json'), 'yaml': (yaml.safe_dump(a), yaml.safe_dump(b), '.yml'),
+            'json-sep': (json.dumps(a2, ensure_ascii=False), json.dumps(b2, ensure_ascii=False), '.json'),
+            'yaml-sep': (yaml.safe_dump(a2, allow_unicode=True), yaml.safe_dump(b2, allow_unicode=True), '.yml'),
+            'xml-sep': (xa, xb, '.xml'), 'csv-sep': (ca, cb, '.csv')}
 
 
 def _run_status_case(case):
@@ -176,8 +186,8 @@ def _run_status_case(case):
         base = [sys.executable, '-m', 'graphtage', pa, pb, '--no-color'] + (['--format', case['fmt']] if case['fmt'] else [])
         outs = {}
         for name, extra in (('default', []), ('--no-status', ['--no-status']), ('--quiet', ['--quiet'])):
-            p = subprocess.run(base + extra, env=env, capture_output=True, text=True, timeout=100)
-            outs[name] = (p.returncode, p.stdout)
+            p = subprocess.run(base + extra, env=env, capture_output=True, timeout=100)
+            outs[name] = (p.returncode, p.stdout.decode('utf-8', 'replace'))     # (no newline translation: "\r" stays "\r")
         try:
             lib_out, lib_rc = _lib_render(pa, pb, {}, fmt=case['fmt'])
         except Exception as e:
@@ -349,6 +359,8 @@ def bounded(tier, seed, repo_root):
     # a file whose type cannot be determined (unknown suffix, no explicit type) in either position
     scases = [{'ft': ft, 'fmt': fmt, 'same': same, 'repo': repo_root} for ft in ('json', 'yaml') for fmt in (None, 'json', 'yaml')
               for same in (False, True)]
+    scases += [{'ft': ft, 'fmt': fmt, 'same': same, 'repo': repo_root} for ft in ('json-sep', 'yaml-sep', 'xml-sep', 'csv-sep')
+               for fmt in (None, 'yaml') for same in (False, True)]
     for r in pmap(_run_status_case, scases, repo_root, job_timeout=400, on_timeout=_case_timeout, skip_result=None):
         if r:
             fails.append(r)
